@@ -980,7 +980,7 @@ class Gen:
                              'self_ref', 'ok_method', 'method_missing_ref', 'method_undeclared_qual', 'param_qual_scope',
                              'dup_method', 'ok_override_prop', 'ok_override_prop', 'override_type_mismatch',
                              'override_missing_name', 'ok_override_other_name', 'ok_override_method',
-                             'override_method_params_differ', 'override_method_rettype', 'override_method_missing'])
+                             'ok_override_method_params_differ', 'override_method_rettype', 'override_method_missing'])
         c = None
         if reason == 'ok':
             c = self.new_class(n)
@@ -1068,7 +1068,7 @@ class Gen:
                          params)
                 if reason == 'dup_method':
                     m['quals'] = []
-                elif reason == 'override_method_params_differ':
+                elif reason == 'ok_override_method_params_differ':
                     if params and rng.random() < 0.5:
                         m['params'] = params[:-1]
                     else:
